@@ -8,12 +8,13 @@ in hash mode, -compile'd binary) -> CALL trace, exit class, stderr class; the Co
 on the same template data, with the Go standard library's own conversions of the words (harness
 unitrun op "conv") and the body outcomes as per-case data.
 Oracle: an independent Python reading of the property sentence (segmenter of the word list)."""
-import os, json, base64, re, time
+import os, json, base64, re, time, shutil
 from vlib import *
 import projlib, c04gen
 
 TY = {"string": "TString", "int": "TInt", "bool": "TBool", "time.Duration": "TDur"}
 TIMES = [0.0, 0.0, 0.0]
+BENIGN = re.compile(r"^(DEBUG: |MAGEFILE_\w+=|Running target:|\s*$)")
 FAIL_MODES = ["error", "error", "fatal:3", "fatal:2", "panic-error", "panic-value", "panic-fatal:5", "osexit:4", "fatal:1"]
 
 
@@ -32,7 +33,8 @@ def gen_lines(rng, proj, inf, n):
         if rng.random() < 0.3:
             for d in rng.sample(alld, min(len(alld), rng.choice([1, 1, 2]))):
                 fail[str(d)] = rng.choice(FAIL_MODES)
-        lines.append({"words": words, "ignore": ignore, "fail": fail, "rebuild": k < 2 or rng.random() < 0.17})
+        lines.append({"words": words, "ignore": ignore, "fail": fail, "rebuild": k < 2 or rng.random() < 0.13,
+                      "mode": c04gen.gen_mode(rng), "argv0": c04gen.gen_argv0(rng, inf, proj.get("binname"))})
     return lines
 
 
@@ -88,10 +90,12 @@ def oracle(proj, line, conv):
 def observe(r):
     """projected observables of one run record"""
     cl = projlib.calls(r["out"])
-    sc = projlib.stderr_class(r["err"])
+    # log lines of the verbose / debug modes are not diagnostics
+    err = "\n".join(l for l in r["err"].splitlines() if not BENIGN.match(l))
+    sc = projlib.stderr_class(err)
     bad = None
     if sc == "bad-arg":
-        m = re.search(r"can't convert argument .* to (int|bool|time\.Duration)\s*$", r["err"], re.M)
+        m = re.search(r"can't convert argument .* to (int|bool|time\.Duration)\s*$", err, re.M)
         bad = m.group(1) if m else "?"
     listed = None
     if "Targets:" in r["out"].splitlines():
@@ -112,30 +116,94 @@ def classify(o):
     return None
 
 
+NOMODE = {"verbose": None, "debug": False, "timeout": None, "spell": 0}
+
+
+def run_exe(mage, argv, cwd, env, executable=None, timeout=180):
+    """like Mage.run, for a compiled binary started under a chosen argv[0] (PATH lookup in env when bare)"""
+    import subprocess
+    e = mage.env(env)
+    for attempt in range(5):
+        try:
+            p = subprocess.run(argv, executable=executable, cwd=cwd, env=e, input=b"", timeout=timeout,
+                               stdout=subprocess.PIPE, stderr=subprocess.PIPE)
+            rc, out, err = p.returncode, p.stdout, p.stderr
+        except subprocess.TimeoutExpired as ex:
+            rc, out, err = 124, ex.stdout or b"", (ex.stderr or b"") + b"\n[timeout]"
+        except OSError as ex:
+            if ex.errno == 26 and attempt < 4:      # ETXTBSY: a sibling's fork still holds the freshly written file
+                time.sleep(0.05 * (attempt + 1))
+                continue
+            raise
+        break
+    return {"rc": rc, "out": out.decode("utf-8", "replace"), "err": err.decode("utf-8", "replace")}
+
+
+def start_compiled(bindir, k, neutral, named, a, d):
+    """-> (argv0, executable or None, cwd, extra env) for the compiled binary started as the line's "argv0" says"""
+    if a is None:
+        return neutral, None, d, {}
+    name = a["name"]
+    executable = None
+    if a["via"] == "compiled":
+        ldir, path = os.path.dirname(named), named
+    elif a["via"] == "fake":            # argv[0] chosen by the caller (exec with a different name), no such file
+        ldir, path, executable = "/usr/local/bin", os.path.join("/usr/local/bin", name), neutral
+    else:
+        ldir = os.path.join(bindir, "l%d" % k)
+        os.makedirs(ldir, exist_ok=True)
+        path = os.path.join(ldir, name)
+        if not os.path.lexists(path):
+            if a["via"] == "copy":
+                # copied by a child process: this (multi-threaded, forking) process never holds a write
+                # descriptor of a file it is about to execute (ETXTBSY)
+                sh(["cp", neutral, path], check=True)
+            else:
+                {"hardlink": os.link, "symlink": os.symlink}[a["via"]](neutral, path)
+    if a["how"] == "abs":
+        return path, executable, d, {}
+    if a["how"] == "dot":
+        return "./" + name, executable, (d if executable else ldir), {}
+    return name, executable, d, ({} if executable else {"PATH": ldir + os.pathsep + os.environ.get("PATH", "")})
+
+
 def run_project(mage, ctx, proj, lines):
     d = mage.project(c04gen.render(proj), name=proj["name"])
-    static = os.path.join(ctx.tmp, "static", proj["name"])
-    os.makedirs(os.path.dirname(static), exist_ok=True)
-    rc = mage.compile(d, static)
+    bindir = os.path.join(ctx.tmp, "static", proj["name"])
+    neutral = os.path.join(bindir, "neutral", "magebin")
+    os.makedirs(os.path.dirname(neutral), exist_ok=True)
+    rc = mage.compile(d, neutral)
     if rc["rc"] != 0:
         return {"build_error": rc}
+    named = None
+    if proj.get("binname") and any((ln.get("argv0") or {}).get("via") == "compiled" for ln in lines):
+        # mage -compile <dir>/<a name that spells a target or alias>
+        named = os.path.join(bindir, "named", proj["binname"])
+        os.makedirs(os.path.dirname(named), exist_ok=True)
+        rc = mage.compile(d, named)
+        if rc["rc"] != 0:
+            return {"build_error": rc}
     res = []
     first = True       # the first run through mage builds the cached binary
-    for ln in lines:
+    for k, ln in enumerate(lines):
         env = {}
         if ln["ignore"] is not None:
             env["MAGEFILE_IGNOREDEFAULT"] = ln["ignore"]
         if ln["fail"]:
-            env["VERIF_FAIL"] = ";".join("d%s:%s" % (k, v) for k, v in sorted(ln["fail"].items()))
+            env["VERIF_FAIL"] = ";".join("d%s:%s" % (k_, v) for k_, v in sorted(ln["fail"].items()))
+        mode = ln.get("mode") or NOMODE
+        ffl, fenv = c04gen.mode_flags(mode, True)
+        bfl, benv = c04gen.mode_flags(mode, False)
         t0 = time.time()
         # the front end hands the words over unchanged whether it rebuilds or reuses the binary, and a
         # rebuild costs ~0.1-1 s: the rebuilding route is taken for the lines marked "rebuild" only
-        r1 = mage.run(d, ln["words"], env=env) if ln.get("rebuild") or first else None
+        r1 = mage.run(d, ffl + ln["words"], env=dict(env, **fenv)) if ln.get("rebuild") or first else None
         first = False
         t1 = time.time()
-        r2 = mage.run(d, ln["words"], env=dict(env, MAGEFILE_HASHFAST="1"))
+        r2 = mage.run(d, ffl + ln["words"], env=dict(env, MAGEFILE_HASHFAST="1", **fenv))
         t2 = time.time()
-        r3 = mage.run(d, ln["words"], env=env, exe=static)
+        argv0, executable, cwd, penv = start_compiled(bindir, k, neutral, named, ln.get("argv0"), d)
+        r3 = run_exe(mage, [argv0] + bfl + ln["words"], cwd, dict(env, **benv, **penv), executable=executable)
         t3 = time.time()
         TIMES[0] += t1 - t0; TIMES[1] += t2 - t1; TIMES[2] += t3 - t2
         res.append([observe(r2), observe(r1) if r1 else None, observe(r3), (r2["err"] + r2["out"])[-300:]])
@@ -195,9 +263,14 @@ def case_term(inf_name, line, conv, types, obs, end):
             continue
         seen.add((ty, w))
         entries.append("(%s, %s, %s)" % (TY[ty], coq_str(w), coq_opt(coq_str(conv[(ty, w)])) if conv.get((ty, w)) is not None else "None"))
-    return "{| c_info := %s; c_conv := %s; c_fail := %s; c_ignore := %s; c_words := %s; c_obs := (%s, %s) |}" % (
+    mode = line.get("mode") or NOMODE
+    a0 = line.get("argv0")
+    mterm = "{| m_argv0 := %s; m_verbose := %s; m_debug := %s; m_timeout := %s |}" % (
+        coq_str(a0["name"] if a0 else "magebin"), coq_bool(mode["verbose"] is not None), coq_bool(mode["debug"]),
+        coq_opt(coq_str(mode["timeout"])) if mode["timeout"] else "None")
+    return "{| c_info := %s; c_conv := %s; c_fail := %s; c_ignore := %s; c_mode := %s; c_words := %s; c_obs := (%s, %s) |}" % (
         inf_name, coq_list(entries), coq_list([str(int(k)) for k in sorted(line["fail"], key=int)]),
-        coq_str(line["ignore"] or ""), coq_list([coq_str(w) for w in words]), calls_term(obs["calls"]), end_term(end))
+        coq_str(line["ignore"] or ""), mterm, coq_list([coq_str(w) for w in words]), calls_term(obs["calls"]), end_term(end))
 
 
 # ------------------------------------------------------------------ the check
@@ -212,8 +285,8 @@ def run(ctx):
     rng = ctx.rng
     mage = projlib.Mage(ctx)
     unit = go_build_harness(ctx, "unitrun")
-    nproj = 40 if ctx.quick else 600
-    nlines = 25
+    nproj = 32 if ctx.quick else 500
+    nlines = 24
     work = []
     if ctx.replay and ctx.replay.get("case"):
         c = ctx.replay["case"]
@@ -221,6 +294,9 @@ def run(ctx):
     else:
         for k in range(nproj):
             proj = c04gen.gen_project(rng, "p%04d" % k)
+            inf0 = c04gen.info(proj)
+            # the file name of a second `mage -compile` output: spells a target or an alias of this package
+            proj["binname"] = c04gen.binary_name(rng, rng.choice([t["tname"] for t in c04gen.all_targets(inf0)] + [a for a, _ in inf0["aliases"]]))
             work.append((proj, gen_lines(rng, proj, c04gen.info(proj), nlines)))
     infos = [c04gen.info(p) for p, _ in work]
     # the standard library's conversions of every word (independent of mage)
@@ -250,7 +326,7 @@ def run(ctx):
     nontriv = 0
     nviol = 0
     dist = {"ends": {}, "words_per_line": {}, "name_kinds": {"plain": 0, "ns": 0, "import": 0, "import-ns": 0, "alias": 0},
-            "param_types": {}, "arity": {}, "fail_lines": 0, "no_words": 0, "projects_with_imports": 0, "projects_with_aliases": 0,
+            "param_types": {}, "arity": {}, "modes": {}, "binary_started_as": {}, "fail_lines": 0, "no_words": 0, "projects_with_imports": 0, "projects_with_aliases": 0,
             "projects_with_default": 0}
     for pi, ((proj, lines), inf, res) in enumerate(zip(work, infos, results)):
         if "build_error" in res:
@@ -293,6 +369,12 @@ def run(ctx):
             nw = min(len(ln["words"]), 12)
             dist["words_per_line"][nw] = dist["words_per_line"].get(nw, 0) + 1
             dist["fail_lines"] += bool(ln["fail"])
+            md, a0 = ln.get("mode") or NOMODE, ln.get("argv0")
+            for key, on in (("verbose-" + str(md["verbose"]), md["verbose"]), ("debug", md["debug"]), ("timeout", md["timeout"])):
+                if on:
+                    dist["modes"][key] = dist["modes"].get(key, 0) + 1
+            key = "neutral" if not a0 else a0["via"] + "/" + a0["how"]
+            dist["binary_started_as"][key] = dist["binary_started_as"].get(key, 0) + 1
             dist["no_words"] += not ln["words"]
             h = case_hash([inf, ln])
             if h not in seen:
@@ -339,7 +421,9 @@ def run(ctx):
     cov["distinct_nontrivial"] = nontriv
     cov["rule"] = ("generated collision-free packages (1-6 local targets, 0-2 mage:import'ed packages with/without alias, namespaces, 0-3 aliases, "
                    "default with/without parameters or none) x command lines (1-6 mentions, random letter case, too few / too many words, "
-                   "unconvertible spellings, words that look like targets or flags, unknown names, failing bodies, no words with MAGEFILE_IGNOREDEFAULT values); "
+                   "unconvertible spellings, words that look like targets or flags or need shell quoting, unknown names, failing bodies, no words with MAGEFILE_IGNOREDEFAULT values) "
+                   "x mode flags (-v / MAGEFILE_VERBOSE / -debug / -t, to mage and to the compiled binary) x file name and invocation path of the compiled binary "
+                   "(names spelling targets/aliases; copy, hard link, symlink, -compile output, made-up argv[0]; absolute, ./, PATH); "
                    "each run three ways; distinct by hash of (template data, line); non-trivial = at least two bodies run, or an argument converted, "
                    "or the run stops after at least one body ran")
     cov["projects"] = len(work)
